@@ -552,10 +552,10 @@ theorem fnp_dup (f : Nat) (fp : FmtParams) (s : PState) (c nameTok eq : Tok) (tl
 
 def badValueMsg (name : PName) (lit : String) : String :=
   match name with
-  | .fontId => s!"invalid fontId '{lit}'. Expected string"
-  | .maxLineLength => s!"invalid maxLineLength '{lit}'. Expected integer"
-  | .numLines => s!"invalid numLines '{lit}'. Expected integer"
-  | .cursorOverlapWidth => s!"invalid cursorOverlapWidth '{lit}'. Expected integer"
+  | .fontId => s!"invalid {Facts.formatParamFontId} '{lit}'. Expected string"
+  | .maxLineLength => s!"invalid {Facts.formatParamMaxLineLength} '{lit}'. Expected integer"
+  | .numLines => s!"invalid {Facts.formatParamNumLines} '{lit}'. Expected integer"
+  | .cursorOverlapWidth => s!"invalid {Facts.formatParamCursorOverlapWidth} '{lit}'. Expected integer"
 
 /-- A value token of the wrong type: error at the value token. -/
 theorem fnp_badval (f : Nat) (fp : FmtParams) (s : PState) (c nameTok eq val : Tok) (tl : List Tok)
@@ -620,8 +620,8 @@ theorem fnp_prefix : ∀ (ns : List NamedP) (f : Nat) (fp : FmtParams) (s : PSta
       cases r with
       | nil => trivial
       | cons m r' => exact hlast
-    rw [hlen, printNamed, List.append_assoc, heq,
-      fnp_step _ fp s c n a l (hwf n (by simp)) (hnew n (by simp)) ha, ← heq,
+    rw [hlen, printNamed, ← List.cons_append, List.append_assoc, heq,
+      fnp_step _ fp s c n a l (hwf n (by simp)) (hnew n (by simp)) ha, ← heq, ← List.cons_append,
       fnp_prefix r f _ s n.last nx tl hr hnd.2 hnew' hlast']
     rfl
 
